@@ -33,8 +33,7 @@ func c05Run(c *runner.Ctx) {
 	r := c.R
 	w, shape, err := c05World(c)
 	c.Inc("worlds."+shape, 1)
-	if err != nil {
-		c.Note("world construction failed (C01/C02/C04's business): " + firstLine(err.Error()))
+	if w = usable(c, w, err); w == nil {
 		return
 	}
 	defer w.Close()
